@@ -35,6 +35,9 @@ func genCase(t *rapid.T) gen.History {
 	if rapid.IntRange(0, 7).Draw(t, "highIds") == 0 {
 		h.FirstNodeId = gen.GenFirstNodeId(t, "firstNode")
 	}
+	if rapid.IntRange(0, 5).Draw(t, "rename") == 0 {
+		h.Rename = gen.GenRename(t, h.Schema)
+	}
 	// merged documents exactly at, one below and one above the per-point size limit (the limit applies to
 	// the merged document of an update; it is small in a third of the histories)
 	if h.MaxPointSize < 1<<20 {
@@ -195,6 +198,10 @@ func checkStateSampled(s *drive.Shard, m *model.Collection, pool, byId []uuid.UU
 }
 
 func execCase(h gen.History) (res vt.Result) {
+	if len(h.Rename) > 0 {
+		vt.R().Count("histories_with_renamed_properties", 1)
+		h = h.Renamed()
+	}
 	rec := vt.R()
 	dir, cleanup := drive.CaseDir()
 	defer cleanup()
